@@ -329,12 +329,13 @@ namespace GeographicLib {
 
     // Correct the UTM northing and hemisphere if necessary
     if (utmp) {
-      if (northp && iy < minutmNrow_) {
+      // Test y, not iy: y / tile_ underflows to -0 for tiny negative y
+      if (northp && y < minutmNrow_ * tile_) {
         northp = false;
         y += utmNshift_;
         // If the sum rounds up to the equator retain S hemisphere
         if (y == maxutmSrow_ * tile_) y -= eps;
-      } else if (!northp && iy >= maxutmSrow_) {
+      } else if (!northp && y >= maxutmSrow_ * tile_) {
         if (y == maxutmSrow_ * tile_)
           // If on equator retain S hemisphere
           y -= eps;
